@@ -25,7 +25,8 @@ CONSTANTS Widths,          \* request widths explored
           MaxReq,          \* maximal number of explicit requests in one circuit
           Pads,            \* numbers of additional honest 32-bit requests (circuit size classes)
           NativeArmEmpty,  \* TRUE = model of the defect
-          EmitCases        \* TRUE = collect terminal scenarios for replay (needs -workers 1)
+          EmitCases,       \* TRUE = collect terminal scenarios for replay (needs -workers 1)
+          AllowLateRequest \* TRUE = other deferred callbacks may request checks after the flush (a hazard, see LateRequest)
 
 VARIABLES builder, env, mode, phase, requested, delivered, collected, deferQ, pad, closed
 vars == <<builder, env, mode, phase, requested, delivered, collected, deferQ, pad, closed>>
@@ -104,7 +105,15 @@ RunDeferred ==
                  [] Head(deferQ) = "gnarkcommit" -> closed' = TRUE /\ UNCHANGED <<phase, delivered>>
     /\ UNCHANGED <<builder, env, mode, requested, collected, pad>>
 
-Next == SelectMode \/ (\E w \in Widths : Request(w)) \/ EndDefine \/ RunDeferred
+\* A usage hazard outside the listed property (observed by reading, reported by TLC with AllowLateRequest = TRUE in
+\* RangeChip_late.cfg): a range check requested from ANOTHER deferred callback that runs after the chip's flush is collected
+\* but never handed to gnark's checker - the commit mode drops it silently.  Nothing in the repository does that today.
+LateRequest(w) == /\ AllowLateRequest /\ phase = "deferred" /\ mode = "commit" /\ Len(requested) < MaxReq
+                  /\ (IF deferQ = <<>> THEN TRUE ELSE Head(deferQ) # "flush")
+                  /\ requested' = Append(requested, w) /\ collected' = Append(collected, Len(requested) + 1)
+                  /\ UNCHANGED <<builder, env, mode, phase, delivered, deferQ, pad, closed>>
+
+Next == SelectMode \/ (\E w \in Widths : Request(w) \/ LateRequest(w)) \/ EndDefine \/ RunDeferred
 Spec == Init /\ [][Next]_vars
 
 (* ---- properties (C06 "no configuration silently turns range checks into no-ops") ---------------- *)
